@@ -266,9 +266,18 @@ def run(ctx):
                  sample={'ff': text[-500:], 'resnames': g['resnames'], 'shape': g['shape'], 'interactions_before': nb, 'after': na})
         for b in judge(ff, g, before, after, residues)[:1]:
             ctx.violation('spec', f"C02 fails on the implementation: {b}", {'ff': ff, 'graph': g, 'failure': b})
+        # block interactions are all kept: terms on the same atoms without explicit version get consecutive versions
+        seen_keys, block_rows = set(), []
+        for sec, rows in before['inters'].items():
+            for r in rows:
+                ver = int(r['meta'].get('version', 1))
+                while (sec, tuple(r['atoms']), ver) in seen_keys:
+                    ver += 1
+                seen_keys.add((sec, tuple(r['atoms']), ver))
+                block_rows.append((sec, r, ver))
         blocks = "[" + "; ".join(
-            f"(({lit(sec)}, {lit(r['atoms'])}, {lit(int(r['meta'].get('version', 1)))}), ({lit(r['params'])}, {lit(sorted((str(k), str(v)) for k, v in r['meta'].items()))}))"
-            for sec, rows in before['inters'].items() for r in rows) + "]"
+            f"(({lit(sec)}, {lit(r['atoms'])}, {lit(ver)}), ({lit(r['params'])}, {lit(sorted((str(k), str(v)) for k, v in r['meta'].items()))}))"
+            for sec, r, ver in block_rows) + "]"
         exprs.append(f"show {coq_meta(residues, edges)} {blocks} [{'; '.join(coq_link(l) for l in links)}]")
         keep.append((ff, g, before, after))
     try:
